@@ -85,6 +85,15 @@ def run(tier):
                 add("{{ n is odd }},{{ n is even }},{{ n is divisible_by(divisor=d) }}", {"n": {enc: str(v["n"])}, "d": v["d"]},
                     "%s,%s,%s" % ("true" if v["odd"] else "false", "false" if v["odd"] else "true", "true" if v["div"] else "false"), "parity", {"parity": [v["n"], v["d"], enc]})
             continue
+        if v["fam"] == "parityx":
+            x = v["x"]
+            n = (2 ** x["k"] - x["m1"]) * (-1 if x["neg"] else 1)
+            encs = [e for e, lo, hi in (("$i64", -2**63, 2**63 - 1), ("$u64", 0, 2**64 - 1), ("$i128", -2**127, 2**127 - 1)) if lo <= n <= hi]
+            for enc in encs:
+                for d in (v["d"], {"$f64": "%d.0" % v["d"]}, {"$i128": str(v["d"])}):
+                    add("{{ n is odd }},{{ n is even }},{{ n is divisible_by(divisor=d) }}", {"n": {enc: str(n)}, "d": d},
+                        "%s,%s,%s" % ("true" if v["odd"] else "false", "false" if v["odd"] else "true", "true" if v["div"] else "false"), "parity", {"parity": [str(n), v["d"], enc, str(d)]})
+            continue
         if v["fam"] == "types":
             if v["recv"] == "bytes":        # not covered by the documentation of the type tests
                 continue
